@@ -7,7 +7,9 @@ from ..absval import abstractor
 from ..engine import CHS, SCHED, SEQ, Engine
 from ..model import AnalysisError, dotted, norm
 from ..report import Report
-from .common import av, calls_to, own_nodes, returns
+from .. import sym
+from .common import own_nodes
+from .symutil import S, all_of, any_lit, arg, has, is_, mentions, sh
 
 EXPLANATION = (
     "FLOW: in make_next_pulse_slot the inserted delay's provenance contains the channel's phase_jump_time, 2*rise_time*in_eom_mode (combined by max), the last pulse's fall_time, minus the time already "
@@ -16,59 +18,51 @@ EXPLANATION = (
     "append; the retarget duration has provenance {min_retarget_interval, last_target(), fixed_retarget_t} combined by clip/max and passes adjust_duration when non-zero. GUARD: Channel.phase_jump_time = "
     "custom_phase_jump_time if it is not None else 2*rise_time; rise_time derives from mod_bandwidth. NOT decided: the inequalities themselves (numeric)."
 )
-ASSUMPTIONS = ["def-use provenance inside one function"]
+ASSUMPTIONS = ["formulas are matched on the symbolic normal form of the functions (pstatic/sym.py): temporaries, private helpers, conditional forms and operand order do not matter", "state mutation between two reads of the same attribute path is not modelled by the normal form; the one ordering that matters here (wait_for_fall before reading the last slot) is checked on the event order of the CFG"]
 
 CH = "pulser.channels.base_channel.Channel"
 
 
 def run(E: Engine, rep: Report, tier: str) -> dict:
     mn = E.method(SCHED, "make_next_pulse_slot")
-    ab = abstractor(E.flow(mn))
-    # phase_jump_buffer assignment (the non-zero one)
-    buf = None
-    for n in own_nodes(mn):
-        if isinstance(n, ast.Assign) and isinstance(n.targets[0], ast.Name) and n.targets[0].id == "phase_jump_buffer" and not isinstance(n.value, ast.Constant):
-            buf = n
-    if buf is None:
-        raise AnalysisError("anchor: phase_jump_buffer computation not found in make_next_pulse_slot")
-    v = ab.av(buf.value)
-    where = E.where(mn, buf)
-    rep.check(any(r.endswith(".phase_jump_time") for r in v.roots), "FLOW", "phase_jump_buffer|phase_jump_time", "phase-jump time is part of the buffer", "the buffer between pulses of different phase no longer includes the channel's phase_jump_time", where)
-    rep.check(any(r.endswith(".rise_time") for r in v.roots) and any("in_eom_mode()" in r for r in v.roots) and "Mult" in v.tags and "const:2" in v.roots and "max" in v.tags, "FLOW", "phase_jump_buffer|2*rise_time-in-eom", "max(phase_jump_time, 2*rise_time*in_eom_mode)", "in EOM mode the buffer no longer enforces at least 2*rise_time", where)
-    rep.check(any(r.endswith(".fall_time()") for r in v.roots) and "Add" in v.tags, "FLOW", "phase_jump_buffer|plus-fall_time", "the last pulse's fall time is added", "the buffer no longer adds the last pulse's fall time", where)
-    rep.check("Sub" in v.tags and any(r.endswith("last_pulse_slot().tf") for r in v.roots) and "self.tf" in v.roots, "FLOW", "phase_jump_buffer|minus-elapsed", "minus the time already elapsed since the last pulse (t0 - last_pulse_slot.tf)", "the time already elapsed since the last pulse is no longer subtracted from the buffer", where)
-    # the elapsed time is measured from the channel's current end t0 (= last.tf), not from a later, already delayed, time
-    if isinstance(buf.value, ast.BinOp) and isinstance(buf.value.op, ast.Sub):
-        el = ab.av(buf.value.right)
-        from .common import strip_prefixes as _sp
-
-        er = _sp(el.roots)
-        polluted = sorted(r for r in er if "phase_barrier_ts" in r or "_find_add_delay" in r or r in ("protocol",)) + (["max"] if "max" in el.tags else [])
-        rep.check(not polluted and "self.tf" in er and any(r.endswith("last_pulse_slot().tf") for r in er), "FLOW", "phase_jump_buffer|elapsed-from-channel-end", "elapsed = t0 - last_pulse_slot.tf with t0 the channel's current end",
-                  f"the elapsed time subtracted from the buffer is not measured from the channel's current end: it also depends on {polluted} -- time the pulse still has to wait for other reasons would be deducted from the phase-jump buffer", where)
-    # structure: (max(...) + fall) - (t0 - last_pulse_slot.tf)
-    top = buf.value
-    ok = isinstance(top, ast.BinOp) and isinstance(top.op, ast.Sub) and isinstance(top.left, ast.BinOp) and isinstance(top.left.op, ast.Add)
-    rep.check(ok, "FLOW", "phase_jump_buffer|shape", "(max(jump, 2*rise*eom) + fall_time) - elapsed", f"the buffer expression changed shape: {norm(top)[:120]}", where)
-    # conditions
-    dnf = ab.enclosing_conditions(buf)
-    lits = [l for c in dnf for l in c]
-    has_nodelay = any(l.atom is not None and l.atom.rel == "NotEq" and "protocol" in l.atom.lhs.roots and "const:'no-delay'" in l.atom.rhs.roots for l in lits)
-    has_phase = any(l.atom is not None and l.atom.rel == "NotEq" and any(r.endswith(".phase") for r in l.atom.lhs.roots) for l in lits)
+    Sm = S(E, mn)
+    slots = [l for l in Sm.calls("_TimeSlot") if l.fn == mn.short]
+    if not slots:
+        raise AnalysisError("anchor: make_next_pulse_slot no longer builds a _TimeSlot")
+    slot = slots[-1]
+    ti = arg(slot, 1, "ti")
+    where = E.where(mn, slot.node)
+    BUF = "max(Q_ch.phase_jump_time, 2 * Q_ch.rise_time * Q_eom) + Q_lp.fall_time(Q_ch, in_eom_mode=Q_eom) - Q_t0 + Q_ls.tf"
+    full = has(ti, BUF)
+    rep.check(has(ti, "Q_ch.phase_jump_time") is not None and has(ti, "max(Q_ch.phase_jump_time, Q__)") is not None, "FLOW", "phase_jump_buffer|phase_jump_time", "phase-jump time is part of the buffer", "the start time of the next pulse no longer includes the channel's phase_jump_time (max(phase_jump_time, ...))", where)
+    m2 = has(ti, "max(Q_ch.phase_jump_time, 2 * Q_ch.rise_time * Q_eom)")
+    rep.check(m2 is not None and is_(m2["Q_eom"], "Q__.in_eom_mode()") is not None, "FLOW", "phase_jump_buffer|2*rise_time-in-eom", "max(phase_jump_time, 2*rise_time*in_eom_mode)", "in EOM mode the buffer no longer enforces at least 2*rise_time (max(phase_jump_time, 2*rise_time*in_eom_mode()) not found in the start time)", where)
+    m3 = has(ti, "max(Q_ch.phase_jump_time, Q__) + Q_lp.fall_time(Q_ch, in_eom_mode=Q_eom) + QS_rest")
+    rep.check(m3 is not None, "FLOW", "phase_jump_buffer|plus-fall_time", "the last pulse's fall time is added", "the buffer no longer adds the last pulse's fall time (in the mode the channel is in) to the phase-jump time", where)
+    rep.check(full is not None, "FLOW", "phase_jump_buffer|minus-elapsed", "minus the time already elapsed since the last pulse (t0 - last_pulse_slot.tf)", "the time already elapsed since the last pulse (t0 - last_pulse_slot.tf) is no longer subtracted from the buffer", where)
+    rep.check(full is not None, "FLOW", "phase_jump_buffer|shape", "max(jump, 2*rise*eom) + fall_time - (t0 - last_pulse_slot.tf)", "the buffer between pulses of different phase is no longer max(phase_jump_time, 2*rise_time*in_eom) + fall_time - (t0 - last_pulse.tf)", where)
+    # the elapsed time is measured from the channel's current end (the tf of the slot whose targets the new slot inherits)
+    tg = arg(slot, 3, "targets")
+    base = tg[1] if tg is not None and tg[0] == "attr" and tg[2] == "targets" else None
+    ok = full is not None and base is not None and full["Q_t0"] == ("attr", base, "tf")
+    rep.check(ok, "FLOW", "phase_jump_buffer|elapsed-from-channel-end", "elapsed = t0 - last_pulse_slot.tf with t0 the channel's current end",
+              f"the elapsed time subtracted from the buffer is not measured from the channel's current end ({sh(full['Q_t0']) if full else '?'}): time the pulse still has to wait for other reasons would be deducted from the phase-jump buffer", where)
+    # conditions under which the buffer is computed: read off the path condition of the fall_time call
+    fts = [l for l in Sm.calls("fall_time") if full is not None and l.target == ("attr", full["Q_lp"], "fall_time")]
+    has_nodelay = bool(fts) and all(any(is_(x, "Q_p != 'no-delay'") is not None for x in sym.conj_of(l.cond)) for l in fts)
+    has_phase = bool(fts) and all(any(is_(x, "Q_a.phase != Q_b") is not None for x in sym.conj_of(l.cond)) for l in fts)
     rep.check(has_nodelay, "FLOW", "phase_jump_buffer|only-if-not-no-delay", "computed under protocol != 'no-delay'", "the phase-jump buffer is no longer restricted to protocols other than 'no-delay' (or the guard disappeared)", where)
     rep.check(has_phase, "FLOW", "phase_jump_buffer|only-if-phase-differs", "computed only when the phase changes", "the phase-jump buffer is no longer conditioned on a phase change", where)
-    # delay_duration = max(current_max_t - t0, phase_jump_buffer)
+    # delay = max(conflict delay, buffer)
     ok = False
-    for n in own_nodes(mn):
-        if isinstance(n, ast.Assign) and isinstance(n.targets[0], ast.Name) and n.targets[0].id == "delay_duration" and isinstance(n.value, ast.Call) and (dotted(n.value.func) or "") == "max":
-            args = [norm(a) for a in n.value.args]
-            ok = "phase_jump_buffer" in args and any("current_max_t" in a and "t0" in a for a in args)
-    rep.check(ok, "FLOW", "make_next_pulse_slot|delay=max(conflict,buffer)", "delay = max(conflict delay, phase-jump buffer)", "the inserted delay is no longer the max of the conflict delay and the phase-jump buffer", E.where(mn))
-    # last pulse lookup ignores detuned delays
-    lps = E.method(CHS, "last_pulse_slot")
-    cs = calls_to(E, mn, lps)
-    ok = bool(cs) and all(any(k.arg == "ignore_detuned_delay" and isinstance(k.value, ast.Constant) and k.value.value is True for k in e.node.keywords) for _n, e in cs)
-    rep.check(ok, "FLOW", "make_next_pulse_slot|last-pulse-ignores-detuned-delays", "last_pulse_slot(ignore_detuned_delay=True)", "detuned delays are no longer skipped when looking for the last pulse", E.where(mn))
+    if full is not None:
+        for m in all_of(ti, "max(Q_a, Q_b)"):
+            for x, y in ((m["Q_a"], m["Q_b"]), (m["Q_b"], m["Q_a"])):
+                if has(x, BUF) is not None and mentions(y, "phase_barrier_ts") and has(y, BUF) is None:
+                    ok = True
+    rep.check(ok, "FLOW", "make_next_pulse_slot|delay=max(conflict,buffer)", "delay = max(conflict delay, phase-jump buffer)", "the inserted delay is no longer the max of the conflict delay (phase barriers, other channels) and the phase-jump buffer", where)
+    ok = full is not None and is_(full["Q_ls"], "Q__.last_pulse_slot(ignore_detuned_delay=True)") is not None and full["Q_lp"] == ("attr", full["Q_ls"], "type")
+    rep.check(ok, "FLOW", "make_next_pulse_slot|last-pulse-ignores-detuned-delays", "last_pulse_slot(ignore_detuned_delay=True)", "the last pulse is no longer looked up with last_pulse_slot(ignore_detuned_delay=True) (detuned delays must be skipped), or fall time and end time come from different slots", where)
     # --------------------------------------------------------- add_target
     at = E.method(SCHED, "add_target")
     fl = E.flow(at)
@@ -76,66 +70,72 @@ def run(E: Engine, rep: Report, tier: str) -> dict:
     order = [(node.id, i, e) for node, i, e in fl.all_events()]
     i_wait = next((k for k, (_a, _b, e) in enumerate(order) if e.kind == "call" and any(c.innermost() is wf for c, _m in e.callees)), None)
     i_last = next((k for k, (_a, _b, e) in enumerate(order) if e.kind == "call" and e.text.endswith("[-1]")), None)
-    i_app = next((k for k, (_a, _b, e) in enumerate(order) if e.kind == "write" and e.op == "call:append"), None)
     rep.check(i_wait is not None and i_last is not None and i_wait < i_last, "FLOW", "add_target|wait_for_fall-before-reading-last", "the previous pulse ramps down before the retarget starts", "add_target reads the last slot before waiting for the fall time: the retarget could start while the pulse is still ramping down", E.where(at))
-    # same-target early return before any append
-    ret_ok = False
-    for n in own_nodes(at):
-        if isinstance(n, ast.If) and isinstance(n.test, ast.Compare) and "targets" in norm(n.test.left) and isinstance(n.test.ops[0], ast.Eq) and "qubits_set" in norm(n.test.comparators[0]) and isinstance(n.body[0], ast.Return):
-            app_lines = [e.node.lineno for _a, _b, e in order if e.kind == "write" and e.op == "call:append"]
-            ret_ok = all(n.lineno < l for l in app_lines)
-    rep.check(ret_ok, "FLOW", "add_target|same-target-returns-before-append", "retargeting to the same atoms inserts nothing", "the same-target early return is gone or no longer precedes the append", E.where(at))
-    aba = abstractor(fl)
-    for n in own_nodes(at):
-        if isinstance(n, ast.Call) and (dotted(n.func) or "") == "_TimeSlot" and len(n.args) >= 3:
-            v = aba.av(n.args[2])
-            rep.check(any(r.endswith(".min_retarget_interval") for r in v.roots) and any(r.endswith(".last_target()") for r in v.roots) and "clip" in v.tags, "FLOW", "add_target|interval-since-last-target", "delta = clip(min_retarget_interval - (ti - last_target()), 0, ...)", "the retarget duration no longer accounts for the minimum retarget interval since the last target", E.where(at, n))
-            rep.check(any(r.endswith(".fixed_retarget_t") for r in v.roots) and "max" in v.tags, "FLOW", "add_target|at-least-fixed_retarget_t", "delta = max(delta, fixed_retarget_t)", "the retarget no longer lasts at least fixed_retarget_t", E.where(at, n))
-            rep.check(any(r.endswith(".adjust_duration()") for r in v.roots), "FLOW", "add_target|adjusted", "non-zero retarget passes adjust_duration", "the retarget duration no longer passes adjust_duration", E.where(at, n))
-    ok = False
-    for n in own_nodes(at):
-        if isinstance(n, ast.Assign) and norm(n.targets[0]) == "elapsed":
-            ok = norm(n.value).replace(" ", "") in ("ti-self[channel].last_target()",)
-    rep.check(ok, "FLOW", "add_target|elapsed=ti-last_target", "elapsed measured from the end of the previous target instruction", "elapsed is no longer ti - last_target()", E.where(at))
+    Sa = S(E, at)
+    tslots = [l for l in Sa.calls("_TimeSlot") if l.fn == at.short]
+    if not tslots:
+        raise AnalysisError("anchor: add_target no longer builds a _TimeSlot")
+    for ts in tslots:
+        w = E.where(at, ts.node)
+        t_i, t_f, q = arg(ts, 1, "ti"), arg(ts, 2, "tf"), arg(ts, 3, "targets")
+        qs = q[2][0] if q is not None and q[0] == "call" and q[2] else q
+        same = any_lit(ts, "Q_l.targets != Q_q")
+        rep.check(same is not None and same["Q_q"] == qs, "FLOW", "add_target|same-target-returns-before-append", "retargeting to the same atoms inserts nothing", "the target slot is no longer built only when the new targets differ from the current ones (same-target early return gone or changed)", w)
+        CLIP = "Q_np.clip(Q_ch.min_retarget_interval - (Q_ti - Q_cs.last_target()), 0, Q_ch.min_retarget_interval)"
+        mc = has(t_f, CLIP)
+        rep.check(mc is not None, "FLOW", "add_target|interval-since-last-target", "delta = clip(min_retarget_interval - (ti - last_target()), 0, min_retarget_interval)", "the retarget duration no longer accounts for the minimum retarget interval since the last target (clip(min_retarget_interval - (ti - last_target()), 0, min_retarget_interval) not found)", w)
+        rep.check(mc is not None and t_i is not None and sym.contains(t_i, mc["Q_ti"]), "FLOW", "add_target|elapsed=ti-last_target", "elapsed measured from the slot's own start to the end of the previous target instruction", "the elapsed time is no longer ti - last_target() with ti the start of the new target slot", w)
+        mm = has(t_f, "max(Q_ch.fixed_retarget_t, Q_c)")
+        rep.check(mm is not None and has(mm["Q_c"], CLIP) is not None, "FLOW", "add_target|at-least-fixed_retarget_t", "delta = max(delta, fixed_retarget_t)", "the retarget no longer lasts at least fixed_retarget_t", w)
+        ma = has(t_f, "Q_cs.adjust_duration(Q_d)")
+        rep.check(ma is not None and has(ma["Q_d"], CLIP) is not None, "FLOW", "add_target|adjusted", "non-zero retarget passes adjust_duration", "the retarget duration no longer passes adjust_duration", w)
     rep.floor("FLOW", 14)
     # the look-back of the at-rest duration covers the longest possible ramp-down (2*rise_time), like the conflict scan does
     _lookback(E, rep)
     # -------------------------------------------------------------- GUARD
     pj = [f for f in E.cls(CH).methods["phase_jump_time"] if f.kind == "property"][0]
-    ok = False
-    for r in returns(pj):
-        for n in ast.walk(r.value):
-            if isinstance(n, ast.IfExp):
-                t = norm(n.test).replace(" ", "")
-                if t == "self.custom_phase_jump_timeisNone":
-                    ok = "rise_time" in norm(n.body) and "2" in norm(n.body) and norm(n.orelse) == "self.custom_phase_jump_time"
-                elif t == "self.custom_phase_jump_timeisnotNone":
-                    ok = "rise_time" in norm(n.orelse) and norm(n.body) == "self.custom_phase_jump_time"
-    rep.check(ok, "GUARD", "Channel.phase_jump_time|custom-else-2*rise_time", "custom_phase_jump_time if defined (0 included) else 2*rise_time", "phase_jump_time is no longer `custom if custom is not None else 2*rise_time` (a custom value of 0 must be honoured)", E.where(pj))
+    r = S(E, pj).ret
+    m = has(r, "Q_a if Q_s.custom_phase_jump_time is None else Q_b")
+    ok = m is not None and has(m["Q_a"], "2 * Q_s.rise_time") is not None and not mentions(m["Q_a"], "custom_phase_jump_time") and mentions(m["Q_b"], "custom_phase_jump_time") and not mentions(m["Q_b"], "rise_time")
+    rep.check(ok, "GUARD", "Channel.phase_jump_time|custom-else-2*rise_time", "custom_phase_jump_time if defined (0 included) else 2*rise_time", f"phase_jump_time is no longer `custom if custom is not None else 2*rise_time` (a custom value of 0 must be honoured): {sh(r)}", E.where(pj))
     rt = [f for f in E.cls(CH).methods["rise_time"] if f.kind == "property"][0]
-    vs = [av(E, rt, r.value) for r in returns(rt)]
-    rep.check(any("self.mod_bandwidth" in v.roots and "Div" in v.tags for v in vs), "GUARD", "Channel.rise_time|from-mod_bandwidth", "rise time = MODBW_TO_TR / mod_bandwidth", "rise_time no longer derives from mod_bandwidth", E.where(rt))
+    r = S(E, rt).ret
+    rep.check(has(r, "Q_k / Q_s.mod_bandwidth * QS_r") is not None, "GUARD", "Channel.rise_time|from-mod_bandwidth", "rise time = MODBW_TO_TR / mod_bandwidth", f"rise_time no longer derives from mod_bandwidth: {sh(r)}", E.where(rt))
     rep.floor("GUARD", 4)
     return {}
 
 
-def _lookback(E: Engine, rep: Report) -> None:
-    from .common import linear_factor
+def _rise_coeffs(t) -> set:
+    """Numeric coefficients with which `<x>.rise_time` enters the comparisons inside a term."""
+    out = set()
 
+    def walk(x, in_cmp: bool) -> None:
+        if not isinstance(x, tuple) or not x:
+            return
+        if x[0] == "cmp":
+            in_cmp = True
+        if in_cmp and x[0] == "mul" and any(y[0] == "attr" and y[2] == "rise_time" for y in x[1:] if isinstance(y, tuple)):
+            out.add(x[1][1] if sym.is_num(x[1]) else 1)
+            return
+        if in_cmp and x[0] == "attr" and x[2] == "rise_time":
+            out.add(1)
+            return
+        for y in x:
+            walk(y, in_cmp)
+
+    walk(t, False)
+    return out
+
+
+def _lookback(E: Engine, rep: Report) -> None:
     gd = E.method(CHS, "get_duration")
     fad = E.method(SCHED, "_find_add_delay")
     facs = {}
     for f, label in ((gd, "get_duration"), (fad, "_find_add_delay")):
-        for n in ast.walk(f.node):
-            if isinstance(n, ast.Compare):
-                for side in [n.left] + list(n.comparators):
-                    for sub in ast.walk(side):
-                        if isinstance(sub, ast.BinOp) and isinstance(sub.op, ast.Mult) and "rise_time" in norm(sub):
-                            k, rest = linear_factor(sub)
-                            if len(rest) == 1 and rest[0].endswith("rise_time"):
-                                facs.setdefault(label, set()).add(k)
-                        elif isinstance(sub, ast.Attribute) and sub.attr == "rise_time" and not any(isinstance(p, ast.BinOp) and isinstance(p.op, ast.Mult) and any(x is sub for x in ast.walk(p)) for p in ast.walk(side)):
-                            facs.setdefault(label, set()).add(1)
+        Sf = S(E, f)
+        for l in Sf.log:
+            if l.kind == "test" and l.fn == f.short:
+                facs.setdefault(label, set()).update(_rise_coeffs(l.value))
     rep.check(facs.get("get_duration") == {2}, "GUARD", "_ChannelSchedule.get_duration|lookback=2*rise_time", "the backwards scan for a pending fall time stops only after 2*rise_time of idle time (the longest possible fall time)",
               f"the at-rest look-back threshold is {sorted(facs.get('get_duration', []))} x rise_time: a pulse whose fall time (up to 2*rise_time) is still pending would be missed behind short delays", E.where(gd))
     rep.check(facs.get("_find_add_delay") == {2}, "GUARD", "_Schedule._find_add_delay|lookback=2*rise_time", "the conflict scan looks 2*rise_time behind non-pulse slots",
